@@ -4,6 +4,7 @@
 mod exec;
 mod ops;
 pub mod progs;
+pub use progs::StarFrameDeclaredProgram;
 
 fn main() {
     let args = hx_common::Args::parse();
